@@ -301,6 +301,47 @@ def g_sequences(ctx, rng, i):
             name, f = queries[k]
             now = repr(f())
             ctx.judge("history.requery", now == first[name], [name, off], what=f"PolygonCollection.{name} changed after other queries", op=name, nontrivial=True)
+    # operands in narrow integer representation: a query leaves dtype, buffer and content of its operands as they were
+    for dt in (np.int32, np.int16, np.int8, np.uint8):
+        dim = 2 + i % 2
+        vs = [np.append(gen.coords(rng, (dim,), 6, "int") % (7 if dt is np.uint8 else 99), 1).astype(dt) for _ in range(4)]
+        if dt is not np.uint8:
+            vs = [v * dt(gen.pick(rng, [1, -1])) for v in vs]
+        if np.linalg.matrix_rank(np.stack(vs[: dim + 1]).astype(float)) < dim + 1:
+            continue
+        P_ = [g.Point(v) for v in vs]
+        H_ = [(g.Line if dim == 2 else g.Plane)(v) for v in vs[:3]]
+        PC_ = g.PointCollection(np.stack(vs))
+        objs_ = P_ + H_ + [PC_]
+        steps = [("join", lambda: g.join(P_[0], P_[1])), ("meet", lambda: g.meet(H_[0], H_[1])), ("contains", lambda: H_[0].contains(PC_)), ("join(collection)", lambda: g.join(PC_, P_[3]) if dim == 2 else None),
+                 ("apply", lambda: g.translation(*([1] * dim)) * P_[2]), ("eq", lambda: P_[0] == P_[1]), ("is_coplanar", lambda: g.is_coplanar(*P_[: dim + 1])), ("join3", lambda: g.join(*P_[:3]) if dim == 3 else None)]
+        for name, f_ in steps:
+            before = [(state_digest(o), id(o.array), str(o.dtype)) for o in objs_]
+            try:
+                f_()
+            except Exception:
+                pass
+            after = [(state_digest(o), id(o.array), str(o.dtype)) for o in objs_]
+            bad = [j for j in range(len(objs_)) if before[j] != after[j]]
+            ctx.judge("digest.soft", not bad, [name, np.dtype(dt).name, dim], what=f"{name} on {np.dtype(dt).name} operands changed the state (content, dtype or buffer) of operand(s) {bad}: "
+                      f"{[(before[j][2], after[j][2]) for j in bad]}", op=name, feat={"op": name, "dtype": np.dtype(dt).name}, nontrivial=True)
+    # answers that must not depend on what was computed (and freed) before: special lines, asked repeatedly between unrelated allocations
+    for spec_line in (g.Line(0, 0, int(rng.integers(1, 5))), g.Line(0.0, 0.0, 2.5), g.LineCollection(np.array([[0, 0, 3], [1, 2, 3], [0, 0, -1]]))):
+        firsts = {}
+        for rep in range(4):
+            junk = [rng.integers(1, 2 ** 40, size=int(s_)).astype(np.int64) for s_ in rng.integers(1, 12, size=8)]
+            junkf = [rng.uniform(1, 9, size=int(s_)) for s_ in rng.integers(1, 12, size=8)]
+            del junk, junkf
+            for name, f_ in (("direction", lambda: spec_line.direction.array.tolist()), ("base_point", lambda: spec_line.base_point.array.tolist()), ("isinf", lambda: np.asarray(spec_line.isinf).tolist())):
+                try:
+                    now = repr(f_())
+                except Exception as e:  # noqa: BLE001
+                    now = "raised " + type(e).__name__
+                if name in firsts:
+                    ctx.judge("history.requery", now == firsts[name], [name, spec_line.array.tolist()], what=f"{name} of a special line changed when asked again: {firsts[name][:60]} -> {now[:60]}",
+                              op=name, feat={"op": name}, nontrivial=True)
+                else:
+                    firsts[name] = now
     cube = g.Cuboid(g.Point(*off), g.Point(*(off + [2, 0, 0])), g.Point(*(off + [0, 3, 0])), g.Point(*(off + [0, 0, 1])))
     qs = [("area", lambda: float(cube.area)), ("faces.area", lambda: cube.faces.area.tolist()), ("intersect", lambda: sorted(str(x.normalized_array.round(9).tolist()) for x in cube.intersect(line))),
           ("edges", lambda: len(cube.edges)), ("vertices", lambda: len(cube.vertices)), ("dist", lambda: float(g.dist(cube, g.Point(*(off + [7, 1, 1])))))]
